@@ -27,13 +27,25 @@ class C10(Spec):
                   "generated sequences with 1..many operations per key between saves; the property predicates are evaluated on "
                   "the implementation against a map reference.")
     level_note = ("Row.Encode/DecodeRow/protobuf round trip is treated as the identity on rows (checked by reading rows back); "
-                  "primary keys without the '-' separator; index values of fixed width for lookup exactness; join tables are not "
-                  "modelled.")
+                  "primary keys without the '-' separator; index values of fixed width for lookup exactness; join tables are checked "
+                  "on the implementation only (reference predicates, no model).")
+    def runs(self, tier, seed):
+        # second run: join tables, predicate-only (no Lean model of join.go)
+        return [dict(env={}), dict(env={"VERIF_C10_MODE": "join"})]
+
+    def drv_for(self, run):
+        import os
+        env = run.get("env", {})
+        if env.get("VERIF_C10_MODE") == "join" or os.path.basename(env.get("VERIF_REPLAY", "")).startswith("join_"):
+            return None
+        return self.drv
+
     assumptions = (
         "goleveldb/memdb behave as an ordered map with range iterators (C06)",
         "Row.Encode / DecodeRow / proto round trip is the identity on rows",
         "primary keys are non-empty and contain no '-'; index values have a fixed width in the lookup-exactness theorem",
-        "join tables (join.go) are outside the model and the harness",
+        "join tables (join.go) have no Lean model: they are driven predicate-only (generator keeps referential integrity "
+        "and touches each primary key of each table at most once between saves)",
     )
 
 
